@@ -225,3 +225,85 @@ theorem ofPairs_self_of_nodup (t : Table) (h : t.cols.Nodup) : ofPairs t = t :=
 
 end Table
 end Pyg
+
+namespace Pyg
+namespace Table
+
+/-- in a table with distinct column names every entry is found under its own name -/
+theorem col?_of_mem_nodup {t : Table} (hn : t.cols.Nodup) {e : String × List Cell} (he : e ∈ t) :
+    t.col? e.1 = some e.2 := by
+  unfold col?
+  induction t with
+  | nil => cases he
+  | cons a as ih =>
+    have hn' : a.1 ∉ as.map (·.1) ∧ (as.map (·.1)).Nodup := by
+      simpa [cols, List.nodup_cons] using hn
+    simp only [List.find?_cons]
+    rcases List.mem_cons.1 he with rfl | hm
+    · simp
+    · have : (a.1 == e.1) = false := by
+        have : a.1 ≠ e.1 := fun h => hn'.1 (h ▸ List.mem_map.2 ⟨e, hm, rfl⟩)
+        simpa using this
+      simp only [this]
+      exact ih (by simpa [cols] using hn'.2) hm
+
+/-- restricting a dict to its own keys (line 334 with `columns` = the keys) changes nothing -/
+theorem restrict_self {t : Table} (hn : t.cols.Nodup) :
+    ofPairs (t.cols.map fun k => (k, (t.col? k).getD [Cell.none])) = t := by
+  have h1 : (t.cols.map fun k => (k, (t.col? k).getD [Cell.none])) = t := by
+    unfold cols
+    rw [List.map_map]
+    calc t.map ((fun k => (k, (t.col? k).getD [Cell.none])) ∘ fun c => c.1) = t.map (fun c => c) := by
+          apply List.map_congr_left
+          intro e he
+          simp [Function.comp, col?_of_mem_nodup hn he]
+      _ = t := by simp
+  rw [h1]
+  exact ofPairs_of_nodup t hn
+
+theorem ofRows_cols (cs : List String) (rs : List (List Cell)) : (ofRows cs rs).cols = cs := by
+  unfold ofRows cols
+  rw [List.map_map]
+  have : ((fun c : String × List Cell => c.1) ∘ fun (x : String × Nat) => (x.1, rs.map fun r => r.getD x.2 .none))
+      = Prod.fst := by funext x; rfl
+  rw [this, List.zipIdx_map_fst]
+
+theorem ofRows_rect (cs : List String) (rs : List (List Cell)) : (ofRows cs rs).Rect rs.length := by
+  intro c hc
+  unfold ofRows at hc
+  obtain ⟨x, _, rfl⟩ := List.mem_map.1 hc
+  simp
+
+/-- `ofRows` as the zip of the names with the transposed rows -/
+theorem ofRows_eq_zip (cs : List String) (rs : List (List Cell)) :
+    ofRows cs rs = cs.zip ((List.range cs.length).map fun j => rs.map fun r => r.getD j .none) := by
+  unfold ofRows
+  rw [List.zipIdx_eq_zip_range', List.zip_map_right, ← List.range_eq_range']
+  apply List.map_congr_left
+  intro x _
+  rfl
+
+theorem ofRows_rows (cs : List String) (rs : List (List Cell)) (hk : cs ≠ [])
+    (hrs : ∀ r ∈ rs, r.length = cs.length) : (ofRows cs rs).rows = rs := by
+  have hne : ofRows cs rs ≠ [] := by
+    intro he
+    have := ofRows_cols cs rs
+    rw [he] at this
+    exact hk this.symm
+  unfold rows
+  rw [nrows_of_rect (ofRows_rect cs rs) hne]
+  apply List.ext_getElem
+  · simp
+  · intro i h1 h2
+    simp only [List.getElem_map, List.getElem_range]
+    have hi : i < rs.length := by simpa using h1
+    have hlen := hrs rs[i] (List.getElem_mem hi)
+    unfold row ofRows
+    rw [List.map_map]
+    apply List.ext_getElem
+    · simp [hlen]
+    · intro j hj1 hj2
+      simp [List.getD_eq_getElem?_getD, hi, hj2]
+
+end Table
+end Pyg
